@@ -284,7 +284,8 @@ Section Merkle.
       let idx := idx / 2 in
       if dbg && (cur_h =? 0)%Z then None
       else
-        let cur_h := ((cur_h - 1) mod 2 ^ 64)%Z in
+        (* usize: 0 - 1 wraps to 2^64 - 1 in a release build *)
+        let cur_h := (if cur_h =? 0 then 2 ^ 64 - 1 else cur_h - 1)%Z in
         if (ldi <? length leaf_heights) && Z.eqb cur_h (Z.of_nat (nth ldi leaf_heights O)) then
           let new_leaves := digest_to_vec cur ++ nth ldi leaf_data [] in
           batch_walk dbg leaf_data leaf_heights (hash_leaf new_leaves) cur_h (S ldi) idx r
